@@ -15,7 +15,7 @@ import (
 	"golang.org/x/tools/go/ssa/ssautil"
 )
 
-const repoDir = "/repo"
+var repoDir = "/repo" // GOSYM_REPO overrides it (development: run the checks against a scratch worktree)
 const repoMod = "github.com/vipnode/vipnode/v2"
 
 var verifDir = "/verif"
